@@ -38,7 +38,7 @@ def make(e, N, shape, ptr, dtype, param, name="D"):
     return m, rec, M
 
 
-def check_state(e, rec, M, ptr_expected, label="state"):
+def check_state(e, rec, M, ptr_expected, label="state", split=False):
     N = len(M)
     ptr = rec.pointer
     e.oblige(label + ":pointer-range", isinstance(ptr, int) and 0 <= ptr < N, pointer=str(ptr))
@@ -49,6 +49,10 @@ def check_state(e, rec, M, ptr_expected, label="state"):
         e.oblige(label + ":shape", False, got=list(val.shape))
         return
     arr = e.read(val)
+    if split:
+        for j in range(N):
+            e.oblige_eq(label + ":contents", arr[(ptr - j) % N, ...], M[j], split=True, slot=j)
+        return
     acc = True
     for j in range(N):
         acc = T.band(acc, e.all_same(arr[(ptr - j) % N, ...], M[j]))
